@@ -83,11 +83,11 @@ Proof.
   assert (fold_right N.max init l <= b) by (apply IH; intros x Hx; apply Hl; right; assumption). lia.
 Qed.
 
-Definition K0 : N := 1048576.      (* LMAX / 4: find_free_base of any slot is at most this *)
+Lemma MAX_BASE_BMAX : MAX_BASE = BMAX. Proof. reflexivity. Qed.
 
+(* one iteration of the 'search loop, after the fall-back and the MAX_BASE test: nbf is the base it probes *)
 Lemma search_spec : forall fuel d cs ns nb att d1 r,
   blen d = clen d -> blen d <= LMAX -> (forall c, In c cs -> c_sym c < 256) -> ns < 256 ->
-  nb <= K0 + 257 * att ->
   reloc_search fuel d cs ns nb att = (d1, Some r) ->
   blen d1 = clen d1 /\ blen d <= blen d1 /\ blen d1 <= LMAX /\
   (forall j, bget d1 j = bget d j) /\ (forall j, cget d1 j = cget d j) /\
@@ -95,11 +95,11 @@ Lemma search_spec : forall fuel d cs ns nb att d1 r,
   r + ns <> 0 /\ is_free_word (cget d (r + ns)) = true /\ r + ns < blen d1 /\
   (forall c, In c cs -> r + c_sym c <> 0 /\ is_free_word (cget d (r + c_sym c)) = true /\ r + c_sym c < blen d1).
 Proof.
-  induction fuel as [|f IH]; intros d cs ns nb att d1 r Hl HL Hcs Hns Hnb S; cbn [reloc_search] in S; [discriminate|].
-  destruct ((MAX_ATTEMPTS <? att) || (MAX_BASE <? nb))%bool eqn:Hlim; [discriminate|].
-  apply orb_false_iff in Hlim as [Ha _]. apply N.ltb_ge in Ha. unfold MAX_ATTEMPTS in Ha.
-  assert (Hr : nb <= 3618576) by (unfold K0 in Hnb; lia).
-  assert (Hsat : forall s, s <= 257 -> sat_add nb s = nb + s) by (intros s Hs; apply sat_add_small; unfold U32_MAX; lia).
+  induction fuel as [|f IH]; intros d cs ns nb0 att d1 r Hl HL Hcs Hns S; cbn [reloc_search] in S; [discriminate|].
+  set (nb := if MAX_ATTEMPTS <? att then N.max nb0 (blen d) else nb0) in S.
+  assert (Hnb0 : nb0 <= nb) by (unfold nb; destruct (MAX_ATTEMPTS <? att); lia).
+  destruct (N.ltb_spec MAX_BASE nb) as [Hmb|Hmb]; [discriminate|]. rewrite MAX_BASE_BMAX in Hmb.
+  assert (Hsat : forall s, s <= 257 -> sat_add nb s = nb + s) by (intros s Hs; apply sat_add_small; unfold U32_MAX, BMAX in *; lia).
   rewrite (Hsat ns) in S by lia. rewrite (Hsat 257) in S by lia.
   set (mx := fold_right N.max (nb + ns) (map (fun c => sat_add nb (c_sym c)) cs)) in S.
   assert (Hmx1 : nb + ns <= mx /\ forall c, In c cs -> nb + c_sym c <= mx).
@@ -111,16 +111,16 @@ Proof.
     rewrite Hsat by (specialize (Hcs c Hc); lia). specialize (Hcs c Hc). lia. }
   destruct (ensure_spec d mx Hl) as (E1 & E2 & E3 & E4). cbv zeta in *.
   set (d' := da_ensure d mx) in *.
-  assert (HL' : blen d' <= LMAX) by (unfold LMAX in *; lia).
+  assert (HL' : blen d' <= LMAX) by (unfold LMAX, BMAX in *; lia).
   assert (Hge : blen d <= blen d') by lia.
   assert (Hrec : forall d1 r, reloc_search f d' cs ns (nb + 257) (att + 1) = (d1, Some r) ->
     blen d1 = clen d1 /\ blen d <= blen d1 /\ blen d1 <= LMAX /\
     (forall j, bget d1 j = bget d j) /\ (forall j, cget d1 j = cget d j) /\
-    nb <= r /\ r <= BMAX /\
+    nb0 <= r /\ r <= BMAX /\
     r + ns <> 0 /\ is_free_word (cget d (r + ns)) = true /\ r + ns < blen d1 /\
     (forall c, In c cs -> r + c_sym c <> 0 /\ is_free_word (cget d (r + c_sym c)) = true /\ r + c_sym c < blen d1)).
   { intros d2 r2 S2.
-    destruct (IH d' cs ns (nb + 257) (att + 1) d2 r2 E1 HL' Hcs Hns ltac:(lia) S2)
+    destruct (IH d' cs ns (nb + 257) (att + 1) d2 r2 E1 HL' Hcs Hns S2)
       as (A1 & A2 & A3 & A4 & A5 & A6 & A7 & A8 & A9 & A10 & A11).
     split; [assumption|]. split; [lia|]. split; [assumption|].
     split; [intro j; rewrite A4; apply E3|]. split; [intro j; rewrite A5; apply E4|].
@@ -131,7 +131,7 @@ Proof.
   inversion S; subst d1 r; clear S.
   apply orb_false_iff in C1 as [C1a C1b]. apply N.eqb_neq in C1a. apply negb_false_iff in C1b. rewrite E4 in C1b.
   split; [assumption|]. split; [assumption|]. split; [assumption|]. split; [assumption|]. split; [assumption|].
-  split; [lia|]. split; [unfold BMAX; lia|]. split; [assumption|]. split; [assumption|]. split; [lia|].
+  split; [lia|]. split; [assumption|]. split; [assumption|]. split; [assumption|]. split; [lia|].
   intros c Hc.
   assert (Hno : ((sat_add nb (c_sym c) =? 0) || negb (is_free_word (cget d' (sat_add nb (c_sym c)))))%bool = false).
   { destruct ((sat_add nb (c_sym c) =? 0) || negb (is_free_word (cget d' (sat_add nb (c_sym c)))))%bool eqn:X; [|reflexivity].
@@ -142,51 +142,52 @@ Proof.
   split; [assumption|]. split; [assumption|]. destruct Hmx1 as [_ M]. specialize (M c Hc). lia.
 Qed.
 
-(* the search gives up only when every one of the 10001 probed bases collides: the arrays are then longer than
-   the last probed base *)
-Definition HUGE : N := 2570000.    (* 257 * MAX_ATTEMPTS *)
+(* the search reports an error only when a base beyond MAX_BASE would be needed; every probed base that collided
+   lies inside the arrays, so the arrays are then within 257 slots of MAX_BASE - the capacity of the 31-bit format *)
+Definition HUGE : N := 2147483133.    (* MAX_BASE - 257 *)
 
 Lemma search_err : forall fuel d cs ns nb att d1,
-  blen d = clen d -> (forall c, In c cs -> c_sym c < 256) -> ns < 256 ->
-  1 <= nb -> nb <= K0 + 257 * att -> att <= MAX_ATTEMPTS -> (N.to_nat (MAX_ATTEMPTS + 1 - att) <= fuel)%nat ->
+  blen d = clen d -> blen d <= LMAX -> (forall c, In c cs -> c_sym c < 256) -> ns < 256 ->
+  1 <= nb -> (nb <= MAX_BASE \/ nb < blen d + 257) ->
+  att <= MAX_ATTEMPTS + 1 -> (N.to_nat (MAX_ATTEMPTS + 2 - att) <= fuel)%nat ->
   reloc_search fuel d cs ns nb att = (d1, None) ->
-  nb + 257 * (MAX_ATTEMPTS - att) < blen d1.
+  HUGE < blen d1.
 Proof.
-  induction fuel as [|f IH]; intros d cs ns nb att d1 Hl Hcs Hns Hnb1 Hnb Hatt Hfuel S.
+  induction fuel as [|f IH]; intros d cs ns nb0 att d1 Hl HL Hcs Hns Hnb1 Hnb Hatt Hfuel S.
   { exfalso. unfold MAX_ATTEMPTS in *. lia. }
   cbn [reloc_search] in S.
-  replace (MAX_ATTEMPTS <? att) with false in S by (symmetry; apply N.ltb_ge; assumption).
-  replace (MAX_BASE <? nb) with false in S by (symmetry; apply N.ltb_ge; unfold MAX_BASE, U32_MAX, K0, MAX_ATTEMPTS in *; lia).
-  cbn [orb] in S.
-  assert (Hr : nb <= 3618576) by (unfold K0, MAX_ATTEMPTS in *; lia).
-  assert (Hsat : forall s, s <= 257 -> sat_add nb s = nb + s) by (intros s Hs; apply sat_add_small; unfold U32_MAX; lia).
+  set (nb := if MAX_ATTEMPTS <? att then N.max nb0 (blen d) else nb0) in S.
+  assert (Hnbf : nb = nb0 \/ (nb = blen d /\ nb0 <= blen d)).
+  { unfold nb. destruct (MAX_ATTEMPTS <? att); [|left; reflexivity]. destruct (N.le_ge_cases nb0 (blen d)); [right | left]; lia. }
+  destruct (N.ltb_spec MAX_BASE nb) as [Hmb|Hmb].
+  { inversion S; subst d1. unfold HUGE, MAX_BASE in *. lia. }
+  assert (Hsat : forall s, s <= 257 -> sat_add nb s = nb + s) by (intros s Hs; apply sat_add_small; unfold U32_MAX, MAX_BASE in *; lia).
   rewrite (Hsat ns) in S by lia. rewrite (Hsat 257) in S by lia.
   set (mx := fold_right N.max (nb + ns) (map (fun c => sat_add nb (c_sym c)) cs)) in S.
+  assert (Hmx2 : mx <= nb + 255).
+  { apply fold_max_le; [lia|]. intros x Hx. apply in_map_iff in Hx as (c & <- & Hc).
+    rewrite Hsat by (specialize (Hcs c Hc); lia). specialize (Hcs c Hc). lia. }
   destruct (ensure_spec d mx Hl) as (E1 & E2 & E3 & E4). cbv zeta in *.
   set (d' := da_ensure d mx) in *.
-  (* a collision at nb + x means that slot lies inside the arrays *)
-  assert (Hcol : forall x, nb + x <> 0 -> is_free_word (cget d' (nb + x)) = false -> nb < blen d').
-  { intros x _ F. destruct (N.lt_ge_cases (nb + x) (clen d')) as [H|H]; [lia|].
+  assert (HL' : blen d' <= LMAX) by (unfold LMAX, MAX_BASE in *; lia).
+  (* a collision at nb + x: that slot lies inside the arrays as they were *)
+  assert (Hcol : forall x, is_free_word (cget d' (nb + x)) = false -> nb < blen d).
+  { intros x F. rewrite E4 in F. destruct (N.lt_ge_cases (nb + x) (clen d)) as [H|H]; [lia|].
     rewrite cget_oob in F by assumption. discriminate. }
-  assert (Hrec : nb < blen d' -> reloc_search f d' cs ns (nb + 257) (att + 1) = (d1, None) ->
-                 nb + 257 * (MAX_ATTEMPTS - att) < blen d1).
-  { intros Hlt S2. destruct (N.eq_dec att MAX_ATTEMPTS) as [Ea|Ea].
-    - (* that was the last attempt: the next iteration returns the error at once *)
-      subst att. destruct f as [|f']; cbn [reloc_search] in S2.
-      + inversion S2; subst d1. lia.
-      + replace (MAX_ATTEMPTS <? MAX_ATTEMPTS + 1) with true in S2 by (symmetry; apply N.ltb_lt; lia).
-        cbn [orb] in S2. inversion S2; subst d1. lia.
-    - assert (Hlt2 : att + 1 <= MAX_ATTEMPTS) by lia.
-      pose proof (IH d' cs ns (nb + 257) (att + 1) d1 E1 Hcs Hns ltac:(lia) ltac:(lia) Hlt2 ltac:(unfold MAX_ATTEMPTS in *; lia) S2) as X.
-      unfold MAX_ATTEMPTS in *. lia. }
+  assert (Hrec : nb < blen d -> reloc_search f d' cs ns (nb + 257) (att + 1) = (d1, None) -> HUGE < blen d1).
+  { intros Hlt S2.
+    assert (Ha : att <= MAX_ATTEMPTS).
+    { destruct (N.le_gt_cases att MAX_ATTEMPTS) as [H|H]; [assumption|]. exfalso.
+      unfold nb in Hlt. replace (MAX_ATTEMPTS <? att) with true in Hlt by (symmetry; apply N.ltb_lt; assumption). lia. }
+    apply (IH d' cs ns (nb + 257) (att + 1) d1 E1 HL' Hcs Hns); try assumption; try (unfold MAX_ATTEMPTS in *; lia). }
   destruct ((nb + ns =? 0) || negb (is_free_word (cget d' (nb + ns))))%bool eqn:C1.
   - apply Hrec; [|assumption]. apply orb_true_iff in C1 as [C1|C1]; [apply N.eqb_eq in C1; lia|].
-    apply negb_true_iff in C1. apply (Hcol ns); [lia | assumption].
+    apply negb_true_iff in C1. apply (Hcol ns); assumption.
   - destruct (existsb _ cs) eqn:C2; [|discriminate].
     apply Hrec; [|assumption]. apply existsb_exists in C2 as (c & Hc & C2). cbv zeta in C2.
     rewrite Hsat in C2 by (specialize (Hcs c Hc); lia).
     apply orb_true_iff in C2 as [C2|C2]; [apply N.eqb_eq in C2; lia|].
-    apply negb_true_iff in C2. apply (Hcol (c_sym c)); [lia | assumption].
+    apply negb_true_iff in C2. apply (Hcol (c_sym c)); assumption.
 Qed.
 
 (* ---------------------------------------------------------------- relocate_state as a whole *)
@@ -228,8 +229,7 @@ Proof.
   set (ob := bv d st) in *. set (cs := reloc_children d st ob) in *.
   destruct (reloc_search (N.to_nat (MAX_ATTEMPTS + 2)) d cs ns (find_free_base st) 0) as [d1 [r|]] eqn:S; [|discriminate].
   assert (Hcs256 : forall c, In c cs -> c_sym c < 256) by (intros c Hc; apply (co_each _ _ _ _ CO c Hc)).
-  assert (Hffb : find_free_base st <= K0 + 257 * 0) by (unfold find_free_base, K0, LMAX in *; lia).
-  destruct (search_spec _ d cs ns (find_free_base st) 0 d1 r Hl L2 Hcs256 Hns Hffb S)
+  destruct (search_spec _ d cs ns (find_free_base st) 0 d1 r Hl L2 Hcs256 Hns S)
     as (S1 & S2 & S3 & S4 & S5 & S6 & S7 & S8 & S9 & S10 & S11).
   assert (Hr1 : 1 <= r) by (unfold find_free_base in S6; lia).
   assert (Hrs : r < 2147483648) by (unfold BMAX in S7; lia).
@@ -436,7 +436,7 @@ Proof.
 Qed.
 
 
-(* relocate_state reports an error only with arrays longer than 257 * 10000 slots *)
+(* relocate_state reports an error only with arrays within 257 slots of MAX_BASE *)
 Lemma relocate_err d addr st ns d1 : DInv d addr -> used d st -> bv d st <> NIL_STATE -> ns < 256 ->
   relocate_state d st ns = (d1, None) -> HUGE < blen d1.
 Proof.
@@ -447,7 +447,9 @@ Proof.
   inversion R; subst d2; clear R.
   assert (Hcs256 : forall c, In c (reloc_children d st (bv d st)) -> c_sym c < 256) by (intros c Hc; apply (co_each _ _ _ _ CO c Hc)).
   assert (Hstl : st < blen d) by (rewrite Hl; apply used_lt; assumption).
-  pose proof (search_err (N.to_nat (MAX_ATTEMPTS + 2)) d _ ns (find_free_base st) 0 d1 Hl Hcs256 Hns) as X.
-  unfold HUGE. unfold find_free_base, K0, LMAX, MAX_ATTEMPTS in *.
-  specialize (X ltac:(lia) ltac:(lia) ltac:(lia) ltac:(lia) S). lia.
+  apply (search_err (N.to_nat (MAX_ATTEMPTS + 2)) d _ ns (find_free_base st) 0 d1 Hl L2 Hcs256 Hns); try assumption.
+  - unfold find_free_base. lia.
+  - left. unfold find_free_base, MAX_BASE, LMAX in *. lia.
+  - unfold MAX_ATTEMPTS. lia.
+  - unfold MAX_ATTEMPTS. lia.
 Qed.
